@@ -29,9 +29,28 @@ class Prune(Exception):
 
 
 class _Yielder(ast.NodeTransformer):
-    def __init__(self, names, lines, points=()):
+    def __init__(self, names, lines, points=(), mangle=None, locks=()):
         self.names, self.lines, self.points = names, lines, set(points)
+        self.mangle, self.locks = mangle, set(locks)
         self.hits = 0
+
+    def visit_Attribute(self, node):
+        self.generic_visit(node)
+        if self.mangle and node.attr.startswith("__") and not node.attr.endswith("__"):
+            node.attr = f"_{self.mangle}{node.attr}"          # private names are mangled inside the class body
+        return node
+
+    def visit_With(self, node):
+        # `with <x>.<lock>:` on a stand-in lock  ->  yield from <x>.<lock>.acquire(); try: body; finally: release()
+        self.generic_visit(node)
+        if len(node.items) == 1 and isinstance(node.items[0].context_expr, ast.Attribute) \
+                and node.items[0].context_expr.attr in self.locks and node.items[0].optional_vars is None:
+            lk = node.items[0].context_expr
+            acq = ast.Expr(value=ast.YieldFrom(value=ast.Call(func=ast.Attribute(value=lk, attr="acquire", ctx=ast.Load()), args=[], keywords=[])))
+            rel = ast.Expr(value=ast.Call(func=ast.Attribute(value=lk, attr="release", ctx=ast.Load()), args=[], keywords=[]))
+            self.hits += 1
+            return [acq, ast.Try(body=node.body, handlers=[], orelse=[], finalbody=[rel])]
+        return node
 
     def visit_Call(self, node):
         self.generic_visit(node)
@@ -73,13 +92,16 @@ def _pp():
     return None
 
 
-def coroutinize(fn, names, glb=None, lines=False, rebind=None, points=()):
+def coroutinize(fn, names, glb=None, lines=False, rebind=None, points=(), mangle=None, locks=()):
     src = textwrap.dedent(inspect.getsource(fn))
     tree = ast.parse(src)
     fdef = tree.body[0]
     if not isinstance(fdef, ast.FunctionDef):
         raise HarnessError(f"cannot coroutinize {fn!r}")
-    y = _Yielder(set(names), lines, points)
+    names = set(names)
+    if mangle:
+        names |= {f"_{mangle}{n}" for n in list(names) if n.startswith("__") and not n.endswith("__")}
+    y = _Yielder(names, lines, points, mangle, locks)
     y.visit(fdef)
     fdef.decorator_list = []
     # make it a generator even if nothing inside yields
@@ -211,7 +233,13 @@ class Sched:
                 if not runnable or self._idle > 20:
                     raise Deadlock([t[0] for t in live if not t[3]])
             eager = [x for x in runnable if x[0] in self.eager]
-            t = eager[0] if eager else runnable[self.pick(runnable)]
+            if eager:
+                t = eager[0]
+            elif (self.max_preempt is not None and self.preempts >= self.max_preempt and self.last is not None
+                  and any(x is self.last for x in runnable)):
+                t = self.last              # preemption budget used up: the running thread keeps the processor (no choice consumed)
+            else:
+                t = runnable[self.pick(runnable)]
             if self.last is not None and self.last is not t and any(x is self.last for x in runnable):
                 self.preempts += 1
                 if self.max_preempt is not None and self.preempts > self.max_preempt:
